@@ -20,6 +20,6 @@ def extra(r):
 
 
 def run(v, tier, seed, replay):
-    seqcheck.run(v, tier, seed, replay, "C10", ["C10"], tree_oracles=["no_panic", "contexts", "tree", "attachments"], knobs=knobs, extra_cases=extra,
+    seqcheck.run(v, tier, seed, replay, "C10", ["C10"], tree_oracles=["no_panic", "contexts", "tree", "attachments_owner"], knobs=knobs, extra_cases=extra,
                  n_quick=(2100, 450), n_thorough=(80000, 10000),
                  nontrivial=lambda lines, tr: sum(1 for l in lines if l.endswith("ctxLocal")) >= 2)
